@@ -1,0 +1,8 @@
+//go:build !verif
+
+// Package verifhook provides yield points for the verification harness in /verif.
+// Without the verif build tag Yield is an empty function that the compiler inlines away.
+package verifhook
+
+// Yield marks a point where the verification harness may pause the calling goroutine.
+func Yield(point string) {}
